@@ -21,6 +21,7 @@
 #include <gmssl/asn1.h>
 #include <gmssl/error.h>
 #include <gmssl/endian.h>
+#include <gmssl/verif.h>
 
 
 static const char *asn1_tag_index[] = {
@@ -541,7 +542,13 @@ int asn1_integer_to_der_ex(int tag, const uint8_t *a, size_t alen, uint8_t **out
 		*(*out)++ = tag;
 	(*outlen)++;
 
-	while (*a == 0 && alen > 1) {
+	while (*a == 0 && alen > 1)
+	VERIF_LOOP_ASSIGNS(a, alen)
+	VERIF_LOOP_INVARIANT(1 <= alen && alen <= VERIF_LOOP_ENTRY(alen))
+	VERIF_LOOP_INVARIANT(VERIF_SAME_OBJECT(a, VERIF_LOOP_ENTRY(a))
+		&& VERIF_OFFSET(a) == VERIF_OFFSET(VERIF_LOOP_ENTRY(a)) + (VERIF_LOOP_ENTRY(alen) - alen))
+	VERIF_LOOP_DECREASES(alen)
+	{
 		a++;
 		alen--;
 	}
@@ -1038,7 +1045,14 @@ int asn1_object_identifier_from_octets(uint32_t *nodes, size_t *nodes_cnt, const
 	inlen--;
 	*nodes_cnt = 2;
 
-	while (inlen) {
+	while (inlen)
+	VERIF_LOOP_ASSIGNS(in, inlen, nodes, *nodes_cnt; nodes != NULL: VERIF_OBJ_WHOLE(nodes))
+	VERIF_LOOP_INVARIANT(inlen <= VERIF_LOOP_ENTRY(inlen))
+	VERIF_LOOP_INVARIANT(in == VERIF_LOOP_ENTRY(in) + (VERIF_LOOP_ENTRY(inlen) - inlen))
+	VERIF_LOOP_INVARIANT(2 <= *nodes_cnt && *nodes_cnt <= ASN1_OID_MAX_NODES)
+	VERIF_LOOP_INVARIANT(VERIF_LOOP_ENTRY(nodes) == NULL ? nodes == NULL : nodes == VERIF_LOOP_ENTRY(nodes) + (*nodes_cnt - 2))
+	VERIF_LOOP_DECREASES(inlen)
+	{
 		uint32_t val;
 		if (*nodes_cnt > ASN1_OID_MAX_NODES) {
 			error_print();
